@@ -384,7 +384,7 @@ def check(prog, rep):
     idx = {}
     for i, st in enumerate(nt.body):
         txt = U(st)
-        if isinstance(st, ast.If) and any(isinstance(s, ast.Raise) for s in st.body) and "charge_err" in U(st.test):
+        if isinstance(st, ast.If) and any(isinstance(s, ast.Raise) for s in st.body) and ("charge_err" in U(st.test) or "noninteger_charge(" in U(st.test)):
             idx["charge-guard"] = i
         if isinstance(st, ast.If) and "args.ffout" in U(st.test) and "apply_name_scheme" in txt:
             idx["name-scheme"] = i
